@@ -60,6 +60,9 @@ type C09Scenario struct {
 	// IOErrDir: (A1 only) listing this source directory fails on the simulated
 	// sender disk, which raises the sender's I/O-error flag: nothing may be deleted.
 	IOErrDir string `json:"ioerr_dir,omitempty"`
+	// Vanish: (A1 only) this source entry vanishes between readdir and lstat on
+	// the simulated sender disk: a read error as well, so nothing may be deleted.
+	Vanish string `json:"vanish,omitempty"`
 }
 
 type c09 struct{}
@@ -110,7 +113,12 @@ func genExtraneous(g *Gen, src *fstree.Tree, dst *fstree.Tree, n int) {
 				}
 			}
 		case 1:
-			dst.Entries = append(dst.Entries, fstree.Entry{Path: fstree.Name(p), Type: "l", Perm: 0o777, Mtime: 1_400_000_000, Target: "nowhere"})
+			// dangling, or pointing at an existing directory (".", a sibling directory)
+			tgt := []string{"nowhere", ".", "..", "."}[g.R.Intn(4)]
+			if len(dirs) > 1 && g.R.Bool() {
+				tgt = "./" + filepath.Base(dirs[1+g.R.Intn(len(dirs)-1)])
+			}
+			dst.Entries = append(dst.Entries, fstree.Entry{Path: fstree.Name(p), Type: "l", Perm: 0o777, Mtime: 1_400_000_000, Target: fstree.Name(tgt)})
 		case 2:
 			dst.Entries = append(dst.Entries, fstree.Entry{Path: fstree.Name(p), Type: "fifo", Perm: 0o644, Mtime: 1_400_000_000})
 		default:
@@ -152,10 +160,14 @@ func (c09) Generate(seed uint64, tier string, index int) any {
 	sc.Tr = g.TransportFor(min, 2*treeBytes(&sc.Src)+treeBytes(&sc.Dst))
 	out := &C09Scenario{Sync: sc}
 	if arr == "A1" && del && g.R.Intn(3) == 0 {
-		for _, e := range sc.Src.Entries {
-			if e.Type == "d" {
-				out.IOErrDir = string(e.Path)
-				break
+		if g.R.Bool() && len(sc.Src.Entries) > 0 {
+			out.Vanish = string(sc.Src.Entries[g.R.Intn(len(sc.Src.Entries))].Path)
+		} else {
+			for _, e := range sc.Src.Entries {
+				if e.Type == "d" {
+					out.IOErrDir = string(e.Path)
+					break
+				}
 			}
 		}
 	}
@@ -168,12 +180,12 @@ func (c09) Run(t *testing.T, scenario any, job *Job, res *Result) {
 	// a canary next to the destination: nothing outside may be removed
 	hooks := SessionHooks{}
 	var sfs *simfs.FS
-	if sc.IOErrDir != "" {
+	if sc.IOErrDir != "" || sc.Vanish != "" {
 		if sc.Sync.Arr != "A1" {
-			res.Invalid = "ioerr_dir needs A1"
+			res.Invalid = "sender-disk faults need A1"
 			return
 		}
-		sfs = simfs.New(lay.Src, simfs.Plan{FailReadDir: sc.IOErrDir})
+		sfs = simfs.New(lay.Src, simfs.Plan{FailReadDir: sc.IOErrDir, VanishInfo: sc.Vanish})
 		hooks.Modules = []rsyncd.Module{{Name: "mod", FS: sfs}}
 	}
 	out, err := semRun(t, &sc.Sync, lay, hooks)
@@ -189,11 +201,12 @@ func (c09) Run(t *testing.T, scenario any, job *Job, res *Result) {
 	}
 	tag := ":" + arrDirection(sc.Sync.Arr)
 	if sfs != nil {
-		if sfs.ReadDirFails == 0 {
-			res.Invalid = "injected ReadDir failure did not fire"
+		if sfs.ReadDirFails == 0 && sfs.VanishCount == 0 {
+			res.Invalid = "injected sender-disk fault did not fire"
 			return
 		}
 		res.Fault("sender_readdir_error", sfs.ReadDirFails)
+		res.Fault("sender_entry_vanished", sfs.VanishCount)
 		if out.S.Outcome != kernel.Finished || out.S.Panic != "" {
 			sessionSucceeded(res, out.S, "")
 			return
@@ -201,7 +214,7 @@ func (c09) Run(t *testing.T, scenario any, job *Job, res *Result) {
 		// with the I/O error flag raised nothing at all may be removed
 		for _, p := range names(out.Before) {
 			if _, ok := out.After[p]; !ok {
-				res.Violate("deleted-despite-io-error", "deleted-despite-io-error", fmt.Sprintf("sender reported read errors (listing %q failed) but %q was removed; client err=%v", sc.IOErrDir, p, out.S.ClientErr))
+				res.Violate("deleted-despite-io-error", "deleted-despite-io-error", fmt.Sprintf("the sender hit read errors (listing %q failed / entry %q vanished between readdir and lstat) but %q was removed; client err=%v", sc.IOErrDir, sc.Vanish, p, out.S.ClientErr))
 				return
 			}
 		}
